@@ -143,7 +143,7 @@ def sign_file(src, dst, key, kid, alg, keysdir, action="error", route="cmd", wor
                 rc, err = drive.cli_sub(argv, workdir or os.path.dirname(dst))
                 if rc != 0:
                     return drive.Outcome(False, exc=RuntimeError(f"cli exit {rc}: {err[-300:]}"), route=route)
-        if not os.path.exists(dst):
+        if not drive.written(dst):
             return drive.Outcome(False, exc=RuntimeError("no output file written"), route=route)
         with open(dst, "rb") as fh:
             return drive.Outcome(True, fh.read(), route=route)
@@ -159,7 +159,7 @@ def sign_bytes(rec, r, E, workdir, alg=None, kid=None, route="cmd", action="erro
     key = key or ks.pick(r, alg)
     kid = r.choice(KIDS) if kid is None else kid
     src = drive.fresh(workdir, ".suit")
-    dst = drive.fresh(workdir, ".suit")
+    dst = drive.fresh_out(workdir, ".suit")
     with open(src, "wb") as fh:
         fh.write(E)
     try:
